@@ -5,8 +5,8 @@ import json
 import decl, gen, pktcases, pktprops
 
 PID = 'C03'
-TARGETS = ['Properties/C03.vo', 'Bridge/IntBridge.vo', 'Bridge/DataBridge.vo', 'Bridge/CodegenBridge.vo', 'Bridge/PlumbingBridge.vo']
-KERNELS = ['G6_int', 'G8_data', 'G11_codegen', 'G17_builder']
+TARGETS = ['Properties/C03.vo', 'Bridge/IntBridge.vo', 'Bridge/DataBridge.vo', 'Bridge/CodegenBridge.vo', 'Bridge/PlumbingBridge.vo', 'Bridge/FragBridge.vo']
+KERNELS = ['G1_frag', 'G6_int', 'G8_data', 'G11_codegen', 'G17_builder']
 PROP_FILE = 'Properties/C03.v'
 
 
@@ -65,7 +65,23 @@ def run(tier, seed, rng):
             table[len(table)] = dict(end=rng.choice([None, 'little']), align=None, sbl=None, gp=True, gu=True, vec=True, ann=True, fields=fields)
         vg = gen.ValGen(rng, table)
         ops = []
-        for c in table:
+        if b == 1:
+            # an offset table: a run of four one-byte integers (ONE chunk in vectorised generated code, four in the generic loop), a
+            # string placed by the first at a position inside / at the end of / beyond that run, possibly empty, and a field placed
+            # further on: every position 0..7 x length 0..2
+            table = {0: dict(end=None, align=None, sbl=None, gp=True, gu=True, vec=True, ann=True, fields=[
+                {'move': None, 'body': ('elem', ('leaf', ('int', 1, False, None, 0)))},
+                {'move': None, 'body': ('elem', ('leaf', ('int', 1, False, None, 0)))},
+                {'move': None, 'body': ('elem', ('leaf', ('int', 1, False, None, 0)))},
+                {'move': None, 'body': ('elem', ('leaf', ('int', 1, False, None, 0)))},
+                {'move': (('field', 0), 'RInner', False, 'at'), 'body': ('elem', ('leaf', ('dsized', ('field', 1), 'field', b'')))},
+                {'move': (('const', 8), 'RInner', False, 'at'), 'body': ('elem', ('leaf', ('int', 2, False, None, 0)))}])}
+            for off in range(0, 8):
+                for ln in (0, 1, 2):
+                    ops.append(('pack', 0, ('pkt', 0, {0: off, 1: ln, 2: 7, 3: 9, 4: b'xy'[:ln], 5: 0xbeef}), 0))
+                    if off >= 4 and off + ln <= 8:
+                        ops.append(('derive', 0, ('pkt', 0, {0: off, 1: ln, 2: 7, 3: 9, 4: b'xy'[:ln], 5: 0xbeef}), 7))
+        for c in (table if b != 1 else {}):
             for _ in range(2):
                 v = vg.try_value(c)
                 if v is None:
